@@ -20,6 +20,7 @@ def install(reg):
     install_config_specs(reg)
     install_value_specs(reg)
     install_magnet_specs(reg)
+    install_merkle_specs(reg)
     from pyvc import fsmodel
     fsmodel.install(reg)
     fsmodel.install_more(reg)
@@ -331,3 +332,43 @@ def install_magnet_specs(reg):
     def s_sha256hex(p, b):
         return VStr(p.engine.uf("sha256hex", BYTES, S)(p.bytes_term(b) if not isinstance(b, VBox) else PV.yval(b.t)))
     SF["sha256hex"] = s_sha256hex
+
+
+def install_merkle_specs(reg):
+    SF = reg.spec_funcs
+
+    def _seq(p, v):
+        if isinstance(v, VBox):
+            return PV.items(v.t)
+        h = p.deref(v)
+        if isinstance(h, HList):
+            return p.list_seq(h)
+        raise Unsupported("list expected")
+
+    def pairhash_seq(p, X):
+        """one level of the BEP 52 tree over a PV sequence of digests: sha256(X[2i] ++ X[2i+1])"""
+        sha = p.engine.uf("sha256", BYTES, BYTES)
+        h = HList(rule=(z3.Length(X) / 2, lambda i: VBytes(sha(z3.Concat(PV.yval(X[2 * i]), PV.yval(X[2 * i + 1]))))))
+        p.alloc(h)
+        return p.list_seq(h)
+
+    def mroot_term(p, X, unfold=True):
+        """BEP 52 merkle root of a power-of-two sequence of digests, layer-wise definition:
+        mroot([x]) = x ; mroot(X) = mroot(pairhash(X)).  Ground unfolding instances are added for X."""
+        f = p.engine.uf("mroot", PVSEQ, BYTES)
+        t = f(X)
+        key = ("mroot", X.get_id())
+        if unfold and key not in p.ghost:
+            p.ghost[key] = True
+            p.assume(z3.Implies(z3.Length(X) == 1, t == PV.yval(X[0])))
+            ph = pairhash_seq(p, X)
+            p.assume(z3.Implies(z3.Length(X) > 1, t == f(ph)))
+        return t
+
+    def s_mroot(p, blocks):
+        return VBytes(mroot_term(p, _seq(p, blocks)))
+    SF["mroot"] = s_mroot
+
+    def s_pairhash(p, blocks):
+        return VBox(PV.PList(pairhash_seq(p, _seq(p, blocks))))
+    SF["pairhash"] = s_pairhash
